@@ -422,7 +422,9 @@ def _g(r):
 def notif(r, ntype, kids, group=False, participant=None):
     if participant is None:
         participant = rjid(r) if (group or r.random() < .3) else None
-    return N("notification", attrs(id=rid(r), t=rts(r), from_=rgjid(r) if group else rjid(r), type=ntype,
+    # the sender is a user jid, a group jid, or -- for notifications the server itself originates -- a bare domain
+    frm = rgjid(r) if group else (rjid(r) if r.random() < .8 else r.choice([SRV, "g.us", "broadcast", "status@broadcast"]))
+    return N("notification", attrs(id=rid(r), t=rts(r), from_=frm, type=ntype,
                                    participant=participant or None, notify=ropt(r, rtxt(r)),
                                    offline=ropt(r, r.choice("01"))), kids)
 
@@ -888,14 +890,14 @@ def _P():
 
 @req("picture.get", "profiles", "ResultGetPictureIqProtocolEntity", "ErrorIqProtocolEntity")
 def _g(r):
-    j = rjid(r)
+    j = rjid(r) if r.random() < .6 else rgjid(r)          # a contact's picture or a group's icon
     return _P().GetPictureIqProtocolEntity(j, preview=r.random() < .5), \
         lambda i: _res(i, j, [N("picture", {"id": rts(r), "type": r.choice(["preview", "image"])}, None, r.randbytes(20))])
 
 
 @req("picture.set", "profiles", "ResultGetPictureIqProtocolEntity", "ErrorIqProtocolEntity")
 def _g(r):
-    j = rjid(r)
+    j = rjid(r) if r.random() < .6 else rgjid(r)
     return _P().SetPictureIqProtocolEntity(j, r.randbytes(10), r.randbytes(30)), \
         lambda i: _res(i, j, [N("picture", {"id": rts(r)}, None, None)])
 
